@@ -10,8 +10,8 @@ PROP = {
                   "models (token-bucket envelope over all intervals, 5-slot ack-rate model) evaluated after every call"),
     "parallel": 3,
     "jobs": [
-        job("brutal", "core", "./internal/congestion/brutal/", "brutal", BRUTAL_FILES, "^TestVerifC11(SendLoop|AckRate)$",
-            ["brutal-sendloop", "brutal-ackrate"], race=False,
+        job("brutal", "core", "./internal/congestion/brutal/", "brutal", BRUTAL_FILES, "^TestVerifC11(SendLoop|AckRate|Window)$",
+            ["brutal-sendloop", "brutal-ackrate", "brutal-window"], race=False,
             timeout_quick=600, timeout_thorough=3600),
         job("realquic", "core", "./internal/congestion/brutal/", "brutal", BRUTAL_FILES, "^TestVerifC11RealQUIC$",
             ["brutal-real-quic"], race=False,
@@ -36,7 +36,13 @@ PROP = {
              "updated. 2 500..60 000 loop steps per trace (enough to drain the initial bucket at every rate). "
              "brutal-ackrate: one trace = 120..320 direct OnCongestionEventEx calls with virtual time steps from 0 "
              "to 27 s (exact second boundaries, 4..6.5 s and >7 s silences) and batches of 1..4 packets (totals "
-             "creep through the 50-sample threshold) or 1..4400 packets. pacer-loop: common.Pacer alone under the "
+             "creep through the 50-sample threshold) or 1..4400 packets. brutal-window: 30..90 calls per case (window reads, "
+             "MTU raises at arbitrary points, sends, ack/loss batches, rare RTT changes) on a fake RTT provider that "
+             "otherwise keeps returning the same value, half of the cases at 64..200 KB/s with RTT 0..10 ms and a "
+             "third with 2 x rate x RTT within 15 % of one datagram, so the one-datagram floor is what determines the "
+             "window; the floor is asserted against the current datagram size after every call, incl. right after "
+             "SetMaxDatagramSize (also in sendloop, a third of whose traces now run with a fixed smoothed RTT, and in "
+             "real-quic). pacer-loop: common.Pacer alone under the "
              "same loop with a bandwidth that jumps inside [bps, bps/0.8] every 0..3 ms / 0..400 ms or stays at an "
              "end point. brutal-real-quic: real quic-go server->client bulk transfers (~6 virtual seconds) in a synctest "
              "bubble over simnet with a bottleneck router (capacity 2x / 0.92x / 0.6x the Brutal rate, one-way delay "
@@ -45,7 +51,7 @@ PROP = {
              "real BrutalSender is installed with SetCongestionControl after Accept (as UseBrutal does) and checks the "
              "factor against the reference model, window >= datagram, and 'pacing limited => future wake-up with budget' "
              "on the calls quic-go actually makes (no byte envelope there). A trace is non-trivial when it reached the pacing-limited state and saw ack events "
-             "(sendloop), drove the factor below 1 (ackrate), closed the pacing gate (pacer), or completed its transfer with >= 20 checked announcements and >= 50 ack "
+             "(sendloop), drove the factor below 1 (ackrate), raised the datagram size while the floor was binding (window), closed the pacing gate (pacer), or completed its transfer with >= 20 checked announcements and >= 50 ack "
              "events (real-quic); distinct = distinct "
              "parameter vector / event script."),
     "assumptions": [
@@ -69,9 +75,11 @@ PROP = {
         "real clock at package init, bubble clock starts in 2000), which cannot happen in production; the monitor adds "
         "a constant 2^60 ns to every instant handed to the sender and subtracts it from TimeUntilSend (monotime's origin "
         "is arbitrary by contract)",
-        "rate-floor oracle (keys *:saturated-rate-below-*) goes beyond the literal statement: it reads the title "
-        "'sends at the configured rate' together with the anchor 'pacer bandwidth = bps / ackRate' as: a saturated "
-        "loop woken exactly at the announced times moves >= bps x elapsed bytes minus one datagram and rounding",
+        "the rate floor is observed, not demanded: the title 'sends at the configured rate' and the anchor 'pacer "
+        "bandwidth = bps / ackRate' suggest that a saturated loop woken exactly at the announced times moves >= bps x "
+        "elapsed bytes minus one datagram and rounding, but the statement only bounds the rate from above and demands "
+        "progress; shortfalls are counted as obs_saturated_rate_below_configured / obs_saturated_rate_below_bandwidth "
+        "(0 on the unchanged tree) and are not a verdict",
     ],
     "level_note": ("not demanded and only counted (obs_wakeup_sooner_than_1ms_after_last_packet): the 1 ms "
                    "MinPacingDelay floor of the announced time — a pacer without it still satisfies the statement"),
